@@ -100,6 +100,20 @@ def job(chk, item):
                 if m == 'unknown':
                     chk.undecide('%s %r: solver unknown on text difference' % (cat, shape)); continue
                 confirm(chk, cat, base_f, f0, f, m, sym)
+        # translator validation: the text the engine computes on each path of the first ordering is the text the real generator prints
+        vjobs, vmeta = [], []
+        for f0, r0 in firsts:
+            sv = z3.Solver(); sv.add(*base_f.base); sv.add(*r0.pc)
+            if sv.check() != z3.sat:
+                continue
+            m = sv.model()
+            vjobs.append(['report', cat, f0.spec(m)])
+            vmeta.append((r0.value.render(m) if hasattr(r0.value, 'render') else r0.value.v, f0.concretize(m)))
+        for (pred, conc), nat in zip(vmeta, chk.native.run(vjobs) if vjobs else []):
+            chk.validated += 1
+            if nat[0] != 'OK' or unhex(nat[1]) != pred:
+                chk.broken('%s report for %r: the engine predicts a different text than the real generator\npredicted: %r\nreal: %r' % (
+                    cat, conc, pred[:300], unhex(nat[1])[:300] if nat[0] == 'OK' else nat))
         chk.sample({'category': cat, 'shape': shape, 'orderings x iteration modes': len({(id(f), sym) for f, sym, _ in runs}), 'paths': len(runs)})
 
 
